@@ -5,7 +5,7 @@
    [Interval::new]'s assertion is explicit: every operation returns [option];
    [None] is the Rust panic. *)
 From Coq Require Import List Bool Arith.
-From FV Require Import Ops Tape F32.
+From FV Require Import Ops Tape.
 Import ListNotations.
 
 Record FL (T : Type) := {
